@@ -636,3 +636,169 @@ def case_c07(bindir, seed, index, tier, extra):
 def replay_c07(bindir, rp):
     vs, _, _ = exec_case_c07(bindir, rp["case"])
     return [(c, d) for (c, d, j, r) in vs]
+
+
+# ================================================================================================
+# C17: packages cannot observe or mutate each other's values
+
+C17_DEFS = '''LIST_G = ["c", "a", "b"]
+NEST_G = [["z", "y"], ["x", "w"]]
+DICT_G = {"k": ["x", "y"], "n": {"m": "v"}}
+
+def lit():
+    return ["c", "a", "b"]
+
+def nested():
+    return [["z", "y"], ["x", "w"]]
+
+def litd():
+    return {"p": ["q", "r"], "s": "t"}
+
+def mixed(extra = None):
+    return [1, "two", ["three", 3]]
+
+def observe():
+    return "|".join([str(lit()), str(nested()), str(litd()), str(mixed()), str(LIST_G), str(NEST_G), str(DICT_G)])
+'''
+
+# mutation / re-ordering idioms; each is a few statements using a fresh variable prefix
+C17_IDIOMS = [
+    ('x = lit()', 'x[0] = "MUT_%s"'),
+    ('x = lit()', 'x[2] = "MUT_%s"'),
+    ('x = nested()', 'y = x[0]', 'y[1] = "MUT_%s"'),
+    ('x = nested()', 'x[1] = ["MUT_%s"]'),
+    ('x = reversed(lit())',),
+    ('x = sorted(lit())',),
+    ('x = sorted(lit(), reverse = True)',),
+    ('x = reversed(nested())',),
+    ('x = litd()', 'x["new"] = "MUT_%s"'),
+    ('x = litd()', 'y = x["p"]', 'y[0] = "MUT_%s"'),
+    ('x = mixed()', 'y = x[2]', 'y[0] = "MUT_%s"'),
+    ('x = mixed()', 'x[0] = 99'),
+    ('x = lit()', 'x += ["MUT_%s"]'),
+    ('x = [v for v in lit()]', 'x[0] = "MUT_%s"'),
+    ('x = lit() + ["tail"]', 'x[0] = "MUT_%s"'),
+    ('x = sorted(LIST_G)',),
+    ('x = reversed(LIST_G)',),
+    ('x = sorted(NEST_G)',),
+    ('x = LIST_G', 'x[0] = "MUT_%s"'),
+    ('x = NEST_G[0]', 'x[0] = "MUT_%s"'),
+    ('x = DICT_G["k"]', 'x[0] = "MUT_%s"'),
+    ('x = DICT_G', 'x["k2"] = "MUT_%s"'),
+    ('x = DICT_G["n"]', 'x["m"] = "MUT_%s"'),
+    ('x = lit()', 'y = x', 'y[1] = "MUT_%s"'),
+    ('x = {"a": lit()}', 'y = x["a"]', 'y[0] = "MUT_%s"'),
+]
+
+
+def gen_case_c17(seed, tier):
+    rng = Rng(seed)
+    npk = rng.rng(2, 5)
+    pkgs = rng.sample(["a", "b", "c", "d", "e", "f"], npk)
+    pkgs.sort()
+    bodies = {}
+    for p in pkgs:
+        lines = ['subinclude("//defs:defs")']
+        k = rng.choice([0, 1, 1, 2, 3])
+        for j in range(k):
+            idiom = rng.choice(C17_IDIOMS)
+            for st in idiom:
+                st = st.replace("x", "x%d" % j).replace("y", "y%d" % j) if False else st
+                lines.append(st % p if "%s" in st else st)
+        lines.append('text_file(name = "v", content = observe())')
+        bodies[p] = "\n".join(lines) + "\n"
+    nrun = 4 if tier == "quick" else 10
+    runs = []
+    for j in range(nrun):
+        order = list(pkgs)
+        rng.shuffle(order)
+        runs.append({"order": order, "threads": rng.choice([1, 2, 4, 8]), "seed": subseed(seed, "run%d" % j)})
+    return {"seed": seed, "pkgs": pkgs, "bodies": bodies, "runs": runs}
+
+
+def c17_spec(case, only=None):
+    spec = rs.new_spec()
+    spec["pkgs"]["defs"] = {"files": {"defs.build_defs": C17_DEFS}, "targets": [], "raw_prefix": 'filegroup(name = "defs", srcs = ["defs.build_defs"], visibility = ["PUBLIC"])\n'}
+    for p in case["pkgs"]:
+        if only is None or p in only:
+            spec["pkgs"][p] = {"files": {}, "targets": [], "raw_prefix": case["bodies"][p]}
+    return spec
+
+
+def c17_observe(res):
+    """{label: content} from `plz query print` output, or an error signature."""
+    out = {}
+    cur = None
+    for l in res.stdout.splitlines():
+        if l.startswith("# //"):
+            cur = l[2:].rstrip(":").strip()
+        elif cur and l.strip().startswith("content ="):
+            out[cur] = l.strip()
+    return out
+
+
+def exec_case_c17(bindir, case):
+    import histlib as hl
+    out = []
+    w = hl.World(bindir, "c17")
+    try:
+        spec = c17_spec(case)
+        w.write(spec)
+        base = ["query", "print"]
+        tail = BASE_ARGS
+        solo = {}
+        for p in case["pkgs"]:
+            res, _ = w.plz(base + ["//%s:v" % p] + tail + ["-n", "1"], 1, policy="first")
+            if res.exit == 0:
+                solo["//%s:v" % p] = c17_observe(res).get("//%s:v" % p)
+            else:
+                solo["//%s:v" % p] = None   # this package does not parse on its own (e.g. it assigns to a frozen value)
+        ok_pkgs = [p for p in case["pkgs"] if solo["//%s:v" % p] is not None]
+        w.stats["packages_rejected_alone"] = len(case["pkgs"]) - len(ok_pkgs)
+        if len(ok_pkgs) < 2:
+            return out, w.stats, w.sigs
+        for j, run in enumerate(case["runs"]):
+            order = [p for p in run["order"] if p in ok_pkgs]
+            args = base + ["//%s:v" % p for p in order] + tail + ["-n", str(run["threads"])]
+            res = simlib.run_plz(bindir, w.repo, args, run["seed"], w.home, w.sc.path("jt%d" % j), policy=run.get("policy", ""), choices=run.get("choices"), extra_yields=True)
+            w.stats["invocations"] += 1
+            w.stats["sched_steps"] += res.stats.get("steps", 0)
+            w.sigs.append(res.trace_digest())
+            run2 = dict(run, choices=res.choices())
+            if res.exit == simlib.EXIT_HANG:
+                out.append(("hang", "joint parse did not terminate: %s" % res.sim_fail, run2))
+                break
+            if res.exit != 0:
+                out.append(("joint-parse-fails", "every package parses alone, but parsing %s together exited %d: %s" % (order, res.exit, res.stderr[-500:]), run2))
+                break
+            obs = c17_observe(res)
+            for p in order:
+                lab = "//%s:v" % p
+                if obs.get(lab) != solo[lab]:
+                    out.append(("package-sees-foreign-mutation", "%s parsed together with %s (order %s, %d threads) defines %s, but parsed alone it defines %s" % (lab, [q for q in order if q != p], order, run["threads"], obs.get(lab), solo[lab]), run2))
+                    break
+            if out:
+                break
+        return out, w.stats, w.sigs
+    finally:
+        w.close()
+
+
+def case_c17(bindir, seed, index, tier, extra):
+    r = CaseResult()
+    case = gen_case_c17(seed, tier)
+    vs, stats, sigs = exec_case_c17(bindir, case)
+    r.evals = stats["invocations"]
+    r.stats = stats
+    r.sigs = [sig(s) for s in sigs[len(case["pkgs"]):]]
+    if index < 2:
+        r.sample = {"bodies": case["bodies"], "runs": [x["order"] for x in case["runs"]]}
+    for (c, d, run2) in vs[:1]:
+        c2 = dict(case, runs=[run2])
+        r.violations.append(Violation(c, d, {"engine": "schedsim", "case": c2}))
+    return r
+
+
+def replay_c17(bindir, rp):
+    vs, _, _ = exec_case_c17(bindir, rp["case"])
+    return [(c, d) for (c, d, r) in vs]
